@@ -190,6 +190,10 @@ func (s *Server) blobUploadPost(repoStr string) http.HandlerFunc {
 		// check for mount=digest&from=repo, consider allowing anonymous blob mounts
 		mountStr := r.URL.Query().Get("mount")
 		fromStr := r.URL.Query().Get("from")
+		// the source of a mount is a repository name like any other: only names of the grammar are passed to the store
+		if fromStr != "" && !rePath.MatchString(fromStr) {
+			fromStr = ""
+		}
 		if mountStr != "" && fromStr != "" {
 			if err := s.blobUploadMount(fromStr, repoStr, mountStr, w, r); err == nil {
 				return
